@@ -28,6 +28,13 @@ pub struct Case {
     /// append this many extra tiny records at the end of the first lifetime (latch must hold for the whole lifetime)
     #[serde(default)]
     pub long_lifetime: usize,
+    /// the failing roller archives the file first and fails afterwards
+    #[serde(default)]
+    pub fail_after_moving: bool,
+    /// the trigger is built by the `onstartup` deserializer from a document without `min_size` (documented default 1);
+    /// only used when `min_size` is 1
+    #[serde(default)]
+    pub via_config_default: bool,
 }
 
 pub fn strategy() -> impl Strategy<Value = Case> {
@@ -40,9 +47,9 @@ pub fn strategy() -> impl Strategy<Value = Case> {
         lens(),
         prop::option::weighted(0.12, prop::collection::vec(prop::collection::vec(0usize..40, 1..=5), 2..=8)),
         prop::option::weighted(0.35, lens()),
-        prop::bool::weighted(0.2),
+        (prop::bool::weighted(0.2), prop::bool::ANY, prop::bool::ANY),
     )
-        .prop_map(|(min_size, pre, append_mode, count, records, threads, second_lifetime, fail_first_roll)| Case { min_size, pre, append_mode, count, records, fail_first_roll: fail_first_roll && threads.is_none(), threads, second_lifetime, long_lifetime: 0 })
+        .prop_map(|(min_size, pre, append_mode, count, records, threads, second_lifetime, (fail_first_roll, fail_after_moving, via_config_default))| Case { min_size, pre, append_mode, count, records, fail_first_roll: fail_first_roll && threads.is_none(), threads, second_lifetime, long_lifetime: 0, fail_after_moving, via_config_default })
 }
 
 pub fn check(tmp: &Path, case: &Case, obs: &mut Obs) -> CaseResult {
@@ -75,7 +82,16 @@ fn check_in(dir: &Path, case: &Case, obs: &mut Obs) -> CaseResult {
         let roller = RollSpec::Fixed { base: 0, count: case.count, pattern: "old.{}.log".into() };
         let roll_failures = Arc::new(std::sync::atomic::AtomicUsize::new(0));
         let fail_script: Vec<bool> = if li == 0 && case.fail_first_roll { vec![true] } else { vec![] };
-        let policy = make_flaky_policy(dir, &TrigSpec::OnStartup(case.min_size), &roller, &fail_script, &roll_failures).unwrap();
+        let policy: Box<dyn log4rs::append::rolling_file::policy::Policy> = if case.via_config_default && case.min_size == 1 {
+            // trigger from a configuration document that leaves min_size out
+            let trig = log4rs::config::Deserializers::default()
+                .deserialize::<dyn log4rs::append::rolling_file::policy::compound::trigger::Trigger>("onstartup", serde_value::Value::Map(Default::default()))
+                .map_err(|e| Failure { sig: "C17:build".into(), msg: e.to_string() })?;
+            let r = FlakyRoller { inner: make_roller(dir, &roller).unwrap(), fail_after_moving: case.fail_after_moving, fail: fail_script.clone(), calls: std::sync::atomic::AtomicUsize::new(0), failures: roll_failures.clone() };
+            Box::new(log4rs::append::rolling_file::policy::compound::CompoundPolicy::new(trig, Box::new(r)))
+        } else {
+            make_flaky_policy_with(dir, &TrigSpec::OnStartup(case.min_size), &roller, &fail_script, case.fail_after_moving, &roll_failures).unwrap()
+        };
         let app = Arc::new(build_appender(&path, case.append_mode, &None, policy).map_err(|e| Failure { sig: "C17:build".into(), msg: e.to_string() })?);
         // size of the log file that exists at start-up as this appender sees it
         let start_content: Vec<u8> = if case.append_mode { on_disk_before.clone() } else { vec![] };
@@ -87,8 +103,11 @@ fn check_in(dir: &Path, case: &Case, obs: &mut Obs) -> CaseResult {
         // a roll that fails is not made up for later: "at most one rotation ... only while handling the first record"
         let roll_fails = wants_roll && li == 0 && case.fail_first_roll;
         let must_roll = wants_roll && !roll_fails;
-        let mut expected_active: Vec<u8> = if must_roll { vec![] } else { start_content.clone() };
-        if must_roll {
+        // a roller that archives the file and fails afterwards: the archive exists, the append reports the error,
+        // and the next record opens a fresh file
+        let moved_anyway = roll_fails && case.fail_after_moving;
+        let mut expected_active: Vec<u8> = if must_roll || moved_anyway { vec![] } else { start_content.clone() };
+        if must_roll || moved_anyway {
             archives.insert(0, start_content.clone());
             archives.truncate(case.count as usize);
         }
@@ -197,6 +216,8 @@ fn check_in(dir: &Path, case: &Case, obs: &mut Obs) -> CaseResult {
     obs.class_if(case.second_lifetime.is_some(), "second-lifetime");
     obs.class_if(!case.append_mode, "truncate-mode");
     obs.class_if(case.fail_first_roll, "start-up-roll-fails");
+    obs.class_if(case.fail_first_roll && case.fail_after_moving, "roller-archives-then-fails");
+    obs.class_if(case.via_config_default && case.min_size == 1, "trigger-from-config-without-min_size");
     obs.class_if(case.long_lifetime > 0, "lifetime>65536-records");
     Ok(())
 }
@@ -208,7 +229,7 @@ pub fn run(run: &Run) {
     if run.worker.0 == 0 {
         // one very long lifetime: the "first record" latch must hold beyond any counter width one might pick
         for (pre, min_size) in [(Some(10i64), 5u64), (Some(-3), 40)] {
-            run.eval_one("startup", &Case { min_size, pre, append_mode: true, count: 2, records: vec![3, 0, 7], threads: None, second_lifetime: None, fail_first_roll: false, long_lifetime: 70_000 }, &f);
+            run.eval_one("startup", &Case { min_size, pre, append_mode: true, count: 2, records: vec![3, 0, 7], threads: None, second_lifetime: None, fail_first_roll: false, long_lifetime: 70_000, fail_after_moving: false, via_config_default: false }, &f);
         }
     }
     run.search("startup", run.tier.pick(1_500, 80_000), strategy(), &f);
